@@ -88,11 +88,11 @@ FIELD_ATTR = {
     "skip": "#[serde(skip)]", "flatten": "#[serde(flatten)]", "inline": "#[ts(inline)]",
     "optional": "#[ts(optional)]", "optional_nullable": "#[ts(optional = nullable)]",
     "optional_ssi": '#[ts(optional)] #[serde(skip_serializing_if = "Option::is_none", default)]',
-    "rename": '#[serde(rename = "renamedField")]', "default": "#[serde(default)]",
-    "ts_flatten": "#[ts(flatten)]", "ts_rename": '#[ts(rename = "renamedField")]',
+    "rename": '#[serde(rename = "Renamed_field")]', "default": "#[serde(default)]",
+    "ts_flatten": "#[ts(flatten)]", "ts_rename": '#[ts(rename = "Renamed_field")]',
 }
 VARIANT_ATTR = {
-    "skip": "#[serde(skip)]", "untagged": "#[serde(untagged)]", "rename": '#[serde(rename = "renamedVariant")]',
+    "skip": "#[serde(skip)]", "untagged": "#[serde(untagged)]", "rename": '#[serde(rename = "renamed_Variant")]',
     "rename_all": '#[serde(rename_all = "camelCase")]', "rename_all_kebab": '#[serde(rename_all = "kebab-case")]',
 }
 CONTAINER_ATTR = {
